@@ -171,6 +171,31 @@ def run(tier, v):
             base = {"crate": path_crate, "matcher": True, "cfg": {"http": True, "tcp": True, "tls": True, "matcher": True}, "cap": 2, "parallel": {"workers": 1, "queue": 64, "batch": 2, "timeout_ms": 5}}
             ana.append(dict(base, id="F|%d|%s|%s|%d" % k, frames=[f.hex() for f in whole], filter=cfg))
             ana.append(dict(base, id="U|%d|%s|%s|%d" % k, frames=[f.hex() for f in sub], filter=None))
+    # ---- raw-IP capture of a connection whose client address makes octets 12-13 of its packets read 08 00 and whose server port makes
+    # octet 23 read 06 (see D10_raw_ethertype_lookalike): whatever the packet parsers make of such frames, the filter must have
+    # judged the endpoints the reported result carries.  TLC decides the admitted frames from the endpoints on the wire.
+    cli, srv, cp, sp_ = (8, 0, 1, 5), (10, 11, 7, 7), 40021, 1030
+    Rl = b"GET /look HTTP/1.1\r\nHost: look.example\r\nUser-Agent: look/1.0\r\nAccept: */*\r\n\r\n"
+    Sl = b"HTTP/1.1 200 OK\r\nServer: look-srv\r\n\r\nok"
+    eth = [c10.frame(cli, srv, cp, sp_, 100, 0, 0x02, opts=b"\x02\x04\x05\xb4", ipid=7001), c10.frame(srv, cli, sp_, cp, 900, 101, 0x12, opts=b"\x02\x04\x05\xb4", ipid=7002),
+           c10.frame(cli, srv, cp, sp_, 101, 901, 0x18, Rl, ipid=7003), c10.frame(srv, cli, sp_, cp, 901, 101 + len(Rl), 0x18, Sl, ipid=7004)]
+    n8 = {"a": {"v": 4, "b": [8, 0, 0, 0]}, "p": 8}
+    lcfgs = [{"deny": d, "port": [], "ip": [], "sub": [{"nets": [n8], "cs": True, "cd": cd}]} for d in (False, True) for cd in (True, False)]
+    lin = os.path.join(wd, "look.in")
+    vlib.write_ndjson(lin, [{"eps": [traffic.endpoints(f) for f in eth], "cfgs": lcfgs}])
+    ladm = {}
+    vlib.tlc("TV_C15R", pid=PID, workers=2, env={"TRACE": lin}, timeout=900, coverage=False, tags=("ADMIT",), tag_sink=lambda tag, o: ladm.__setitem__(o["c"], o["admit"]))
+    if len(ladm) != len(lcfgs):
+        raise vlib.ToolError("TV_C15R decided %d of %d configurations" % (len(ladm), len(lcfgs)))
+    rawf = [c10.relink(f, "raw").hex() for f in eth]
+    for crate in ("http", "tcp", "uni"):
+        for ci, cfg in enumerate(lcfgs):
+            k = (400000, crate, "look", ci)
+            sub = [f for f, ad in zip(rawf, ladm[ci + 1]) if ad]
+            meta[k] = {"shape": {"scenario": "raw-IP capture, client 8.0.1.5, server port 1030"}, "analyzer": crate, "trace": "look", "filter": cfg, "frames": rawf, "admitted_subtrace": sub, "class": []}
+            base = {"crate": crate, "matcher": True, "cfg": {"http": True, "tcp": True, "tls": True, "matcher": True}}
+            ana.append(dict(base, id="F|%d|%s|%s|%d" % k, frames=rawf, filter=cfg))
+            ana.append(dict(base, id="U|%d|%s|%s|%d" % k, frames=sub, filter=None))
     areq = os.path.join(wd, "ana.req")
     vlib.write_ndjson(areq, ana)
     aout = os.path.join(wd, "ana.out")
